@@ -48,6 +48,7 @@ func main() {
 	tier := flag.String("tier", "quick", "quick|thorough")
 	list := flag.Bool("list", false, "list registered properties")
 	noEvidence := flag.Bool("no-evidence", false, "do not write evidence (used for mutant runs on scratch copies)")
+	dump := flag.Bool("dump", false, "print every obligation")
 	expect := flag.String("expect", "", "mutant mode: rule[/construct-substring] that must be reported as violated; exit 0 if it is, 3 if not")
 	flag.Parse()
 	if *list {
@@ -91,6 +92,11 @@ func main() {
 			}()
 			rule(c)
 		}()
+	}
+	if *dump {
+		for _, o := range rep.Obls {
+			fmt.Printf("OBL %s %s %s @%s :: %s\n", o.Verdict, o.Rule, o.Construct, o.Pos, o.Detail)
+		}
 	}
 	os.Exit(finish(rep, *verif, *noEvidence, *expect))
 }
